@@ -282,6 +282,8 @@ def items(tier, repo=None):
         yield it
     for it in qualifier_items():
         yield it
+    for it in builtin_annotation_items():
+        yield it
     if tier == 'thorough':
         # pairs of deviations on the small bases
         for bi, text in enumerate(SMALL_BASES):
@@ -453,6 +455,22 @@ def qualifier_items():
                     text = 'namespace qn\n\n' + imports + local + pat % ref
                     yield ('qualifier:%s:%s:%s' % (site, ref, 'imported' if imports else 'not-imported'),
                            [('qo.stone', QUAL_OTHER), ('qt.stone', QUAL_THIRD)] + QUAL_NAMESAKES + [('qn.stone', text)])
+
+
+# ---------------------------------------------------------------------------
+# built-in annotations: every class x every argument shape (positional counts, every keyword name incl. the constructor's own)
+
+BUILTIN_ANNOTATIONS = ['Omitted', 'RedactedBlot', 'RedactedHash', 'Deprecated', 'Preview', 'Nope']
+BUILTIN_ARGS = ['', '"a"', '"a", "b"', 'name="x"', 'ast_node="x"', 'omitted_caller="a"', 'regex="a"', 'x="a"', '"a", name="x"', '"a", regex="b"', 'regex="a", regex="b"',
+                '1', 'null', 'true', '1.5', '[1]', 'caller="a"', 'name=null', 'omitted_caller=1', 'regex="("', '"("', 'regex=null']
+
+
+def builtin_annotation_items():
+    for cls in BUILTIN_ANNOTATIONS:
+        for args in BUILTIN_ARGS:
+            text = 'namespace ba\n\nannotation Xa = %s(%s)\n\nstruct S\n    f String\n        @Xa\n\nunion U\n    t String\n        @Xa\n    v\n        @Xa\n\nalias Al = String\n    @Xa\n' % (cls, args)
+            yield 'builtin-annotation:%s(%s)' % (cls, args), [('ba.stone', text)]
+            yield 'builtin-annotation-unused:%s(%s)' % (cls, args), [('ba.stone', 'namespace ba\n\nannotation Xa = %s(%s)\n' % (cls, args))]
 
 
 POOL_LABELS = None
